@@ -1,7 +1,7 @@
 SPECIFICATION USpec
 CONSTANTS
-    Inputs <- MCInputs2x3
-    Configs <- MCConfigs2
+    Inputs <- MCInputsQuick
+    Configs <- MCConfigsBoth
 INVARIANTS
     UnionExactlyOnceOrdered
     UnionFlushOnClose
